@@ -369,8 +369,11 @@ func (n *FullNode) Run(parentCtx context.Context) error {
 	}
 
 	// only the first error is propagated
-	// any error is an issue, so blocking is not a problem
-	errCh := make(chan error, 1)
+	// Two of the workers started below can report an error, each at most once
+	// before it returns. Give each a slot: after a stop request nobody receives
+	// from this channel any more, and a worker blocked on it would keep
+	// wg.Wait below from ever returning.
+	errCh := make(chan error, 2)
 	// prepare to join the go routines later
 	var wg sync.WaitGroup
 	spawnWorker := func(f func()) {
